@@ -104,6 +104,27 @@ func (x *Exec) call(fr *Frame, st *State, c *ssa.CallCommon, site ssa.Instructio
 		return x.callStatic(fr, st, fv.F.Fn, args, rt, pos)
 	}
 	x.oblig("nil", pos, "call of nil function value", st.PC, Neq(fv.One(), IntLit(0)))
+	// a function value loaded from a struct field that carries a contract ("func field (T).f")
+	if ld, ok := c.Value.(*ssa.UnOp); ok {
+		if fa, ok := ld.X.(*ssa.FieldAddr); ok {
+			owner := fa.X.Type().Underlying().(*types.Pointer).Elem()
+			fname := structOf(owner).Field(fa.Field).Name()
+			if n, ok := types.Unalias(owner).(*types.Named); ok && n.Obj().Pkg() != nil {
+				key := "field:(" + n.Obj().Pkg().Path() + "." + n.Obj().Name() + ")." + fname
+				if fc := x.cs.Funcs[key]; fc != nil {
+					ov, err := x.val(fr, st, fa.X)
+					if err != nil {
+						return Val{}, err
+					}
+					all := append([]Val{ov}, args...)
+					if err := x.callSite(fr, st, n.Obj().Name()+"."+fname, nil, sig, fc, all, pos); err != nil {
+						return Val{}, err
+					}
+					return x.callContract(fr, st, fc, nil, sig, all, rt, pos, fname)
+				}
+			}
+		}
+	}
 	return x.unknownFuncCall(fr, st, c, fv, args, rt, pos)
 }
 
